@@ -376,8 +376,14 @@ def check_pair(acc, pendulum, loc, ia, ib, use_global):
     pendulum.DateTime.now = classmethod(lambda cls, tz=None: b if tz is None else b.in_timezone(tz))
     try:
         r = basic(acc, "diff_for_humans", f"{loc}/now", case, lambda: a.diff_for_humans(locale=loc))
+        # a naive receiver is compared with the naive local time
+        rn = basic(acc, "diff_for_humans", f"{loc}/now/naive-receiver", dict(case, naive=True), lambda: na.diff_for_humans(locale=loc))
     finally:
         pendulum.DateTime.now = orig
+    if rn is not None:
+        ok = acceptable(d, comps, True, future, False)
+        if ok and rn not in ok:
+            acc.mismatch("diff_for_humans", f"{loc}/now/naive-receiver/phrase", dict(case, naive=True), rn, sorted(ok))
     if r is not None:
         ok = acceptable(d, comps, True, future, False)
         if ok and r not in ok:
